@@ -274,6 +274,9 @@ pub fn run() -> Report {
                 if !matches!(*cbn, "simplestats" | "opreturn") {
                     spec.verbosity = (*b % 4) as u8;
                 }
+                // the system's answer to allocation requests is part of the environment: 3 GiB of address space are plenty
+                // for this chain, and not enough for a reservation sized by a length field that nobody checked
+                spec.env.push(("VERIF_RLIMIT_AS".into(), (3u64 << 30).to_string()));
                 let r = match wk.world_run(&world, &spec) {
                     Ok(r) => r,
                     Err(m) => return acc.machinery(m),
